@@ -8,6 +8,7 @@ variable {Name κ : Type} [DecidableEq κ]
 structure Resp (κ : Type) where
   headers : List (κ × String) := []     -- `_headers`, dict order
   extra : List (κ × String) := []       -- `_extra_headers` (raw Set-Cookie lines appended by the application)
+  cookies : List (String × String) := [] -- `_cookies` (SimpleCookie: a dict cookie name → morsel, here its rendered line)
 deriving Repr
 
 def lookup (m : List (κ × String)) (k : κ) : Option String := (m.find? (·.1 == k)).map (·.2)
@@ -46,4 +47,41 @@ def setHeaders (c : Cfg Name κ) : Resp κ → List (Name × String) → Resp κ
 
 /-- what `_wsgi_headers()` emits for the plain part -/
 def emit (r : Resp κ) : List (κ × String) := r.headers ++ r.extra
+
+/-- `set_cookie`: `self._cookies.pop(name, None); self._cookies[name] = …` — a fresh morsel, emitted last (fix ae30cad) -/
+def setCookie (r : Resp κ) (name line : String) : Resp κ := { r with cookies := delKey r.cookies name ++ [(name, line)] }
+/-- `unset_cookie`: `self._cookies[name] = ''` on a dict — an existing morsel keeps its position -/
+def unsetCookie (r : Resp κ) (name line : String) : Resp κ := { r with cookies := setKey r.cookies name line }
+
+/-- the complete list `_wsgi_headers()` / `_asgi_headers()` hand to the server: the dict items, then the raw
+    `_extra_headers`, then one `set-cookie` line per morsel of the jar -/
+def emitAll (c : Cfg Name κ) (r : Resp κ) : List (κ × String) :=
+  r.headers ++ r.extra ++ r.cookies.map (fun p => (c.cookie, p.2))
+
+/-- typed header properties (`_header_property`): write / delete the dict entry of a fixed lower-case name directly -/
+def propSet (r : Resp κ) (k : κ) (v : String) : Resp κ := { r with headers := setKey r.headers k v }
+def propDel (r : Resp κ) (k : κ) : Resp κ := { r with headers := delKey r.headers k }
+
+/-- one operation of a response-header history -/
+inductive Op (Name κ : Type) where
+  | set (n : Name) (v : String)
+  | append (n : Name) (v : String)
+  | delete (n : Name)
+  | setMany (items : List (Name × String))
+  | propSet (k : κ) (v : String)
+  | propDel (k : κ)
+  | cookie (name line : String)
+  | uncookie (name line : String)
+
+def applyOp (c : Cfg Name κ) (r : Resp κ) : Op Name κ → Resp κ
+  | .set n v => (setHeader c r n v).getD r
+  | .append n v => appendHeader c r n v
+  | .delete n => (deleteHeader c r n).getD r
+  | .setMany items => (setHeaders c r items).1
+  | .propSet k v => if k = c.cookie then r else propSet r k v   -- no property is named Set-Cookie
+  | .propDel k => propDel r k
+  | .cookie n l => setCookie r n l
+  | .uncookie n l => unsetCookie r n l
+
+def run (c : Cfg Name κ) (r : Resp κ) (ops : List (Op Name κ)) : Resp κ := ops.foldl (applyOp c) r
 end Hd
